@@ -9,8 +9,8 @@ package main
 // named idioms, or it is reported.
 
 import (
-	"go/ast"
 	"fmt"
+	"go/ast"
 	"go/constant"
 	"go/token"
 	"go/types"
